@@ -292,11 +292,13 @@ Proof.
 Qed.
 
 (* ---------------------------------------------------------------- token lists *)
-Notation body := (body_comments false emits_import_arg_trivia).
-Notation blockc := (block_comments false emits_import_arg_trivia).
+Notation body := (body_comments emits_lbrace_trivia emits_import_arg_trivia).
+Notation blockc := (block_comments emits_lbrace_trivia emits_import_arg_trivia).
+Notation iblockc := (inner_block_comments emits_lbrace_trivia emits_import_arg_trivia).
+Notation vlead := (value_lead emits_lbrace_trivia).
 
-Definition ok_tok (t : token) : Prop := any_tok (existsb is_expression_token) else_without_tag t = false.
-Definition ok_block (b : block) : Prop := any_block (existsb is_expression_token) else_without_tag b = false.
+Definition ok_tok (t : token) : Prop := any_tok (existsb is_value_token) bad_shape t = false.
+Definition ok_block (b : block) : Prop := any_block (existsb is_value_token) bad_shape b = false.
 
 Definition veof_comments (veof : option (option (list trivia))) : list text :=
   match veof with Some tr => otrivia_comments tr | None => [] end.
@@ -318,12 +320,12 @@ Proof.
     repeat match goal with |- context [if ?c then _ else _] => destruct c end; rewrite ?H; reflexivity.
 Qed.
 
-Lemma lead_not_expression : forall t, is_expression_token t = false -> lead_comments t = otrivia_comments (token_trivia t).
+Lemma lead_not_expression : forall t, is_value_token t = false -> lead_comments t = otrivia_comments (token_trivia t).
 Proof. intros t H; destruct t; try reflexivity; discriminate. Qed.
 
 Lemma emits_loop : forall ft veof ts prev,
   (forall t, In t ts -> emits (ft t) (body t)) ->
-  existsb is_expression_token ts = false ->
+  existsb is_value_token ts = false ->
   emits (format_tokens_loop ft veof prev ts) (tail_comments veof ts).
 Proof.
   intros ft veof ts. induction ts as [|t rest IH]; intros prev Hft Hex.
@@ -371,11 +373,11 @@ Proof.
 Qed.
 
 Lemma tokens_comments_tail : forall veof ts,
-  existsb is_expression_token ts = false ->
+  existsb is_value_token ts = false ->
   match ts with
   | t :: _ => otrivia_comments (token_trivia t)
   | [] => veof_comments veof
-  end ++ tail_comments veof ts = tokens_comments false emits_import_arg_trivia ts ++ veof_comments veof.
+  end ++ tail_comments veof ts = tokens_comments emits_lbrace_trivia emits_import_arg_trivia ts ++ veof_comments veof.
 Proof.
   intros veof ts. induction ts as [|t rest IH]; intros Hex.
   - cbn. rewrite app_nil_r. reflexivity.
@@ -390,8 +392,8 @@ Qed.
 
 Lemma emits_tokens_with : forall ft veof ts trim,
   (forall t, In t ts -> emits (ft t) (body t)) ->
-  existsb is_expression_token ts = false ->
-  emits (format_tokens_with ft veof ts trim) (tokens_comments false emits_import_arg_trivia ts ++ veof_comments veof).
+  existsb is_value_token ts = false ->
+  emits (format_tokens_with ft veof ts trim) (tokens_comments emits_lbrace_trivia emits_import_arg_trivia ts ++ veof_comments veof).
 Proof.
   intros ft veof ts trim Hft Hex.
   rewrite <- (tokens_comments_tail veof ts Hex).
@@ -416,7 +418,7 @@ Qed.
 Lemma go_flat_map : forall ts,
   (fix go (ts : list token) : list text :=
      match ts with [] => [] | t :: r => lead_comments t ++ body t ++ go r end) ts =
-  tokens_comments false emits_import_arg_trivia ts.
+  tokens_comments emits_lbrace_trivia emits_import_arg_trivia ts.
 Proof.
   induction ts as [|t r IH]; [reflexivity|]. unfold tokens_comments in *. cbn [flat_map]. rewrite <- IH, <- app_assoc. reflexivity.
 Qed.
@@ -432,40 +434,60 @@ Proof.
   unfold tnows; cbn; rewrite app_nil_r; reflexivity.
 Qed.
 
-Lemma emits_open_block : forall o lp, emits (open_block o lp) [].
+Lemma emits_open_block : forall o lp onl, emits (open_block o lp onl) [].
 Proof.
-  intros o lp. unfold open_block. destruct (o_braces o).
+  intros o lp onl. unfold open_block. destruct (o_braces o).
   - ecomp; [apply emits_push | apply emits_push | reflexivity].
-  - ecomp; [ ecomp; [apply emits_push | apply emits_push | reflexivity] | apply emits_push | reflexivity].
+  - ecomp; [ ecomp; [ destruct onl; [apply emits_id | apply emits_push] | apply emits_push | reflexivity] | apply emits_push | reflexivity].
+Qed.
+
+Lemma emits_lbrace_trivium : forall t, emits (fmt_lbrace_trivium t) (trivium_comments t).
+Proof.
+  intros t. destruct t as [s| |s|s]; cbn [fmt_lbrace_trivium trivium_comments].
+  - apply emits_id.
+  - apply emits_id.
+  - destruct s; [apply (emits_eq _ [[]]); [reflexivity|] |]; apply emits_push_comment.
+  - eapply emits_ext with (g := fun st => push [NL] (push_type (Some Comment) s st)); [reflexivity|].
+    ecomp; [ | apply emits_push | apply app_nil_r ].
+    destruct s; [apply (emits_eq _ [[]]); [reflexivity|] |]; apply emits_push_comment.
+Qed.
+
+Lemma emits_fmt_lbrace_trivia : forall ot, emits (fmt_lbrace_trivia ot) (otrivia_comments ot).
+Proof.
+  intros [ts|]; cbn [fmt_lbrace_trivia otrivia_comments]; [|apply emits_id].
+  apply (emits_fold fmt_lbrace_trivium trivium_comments). intros; apply emits_lbrace_trivium.
 Qed.
 
 Lemma ok_block_inv : forall lp inner rp, ok_block (mkBlock lp inner rp) ->
-  existsb is_expression_token inner = false /\ forall t, In t inner -> ok_tok t.
+  existsb is_value_token inner = false /\ forall t, In t inner -> ok_tok t.
 Proof.
   intros lp inner rp H. unfold ok_block in H. cbn [any_block] in H. apply orb_false_elim in H as [H1 H2].
   split; [assumption|]. clear H1. induction inner as [|a r IH]; intros t Hin; [destruct Hin|].
   apply orb_false_elim in H2 as [Ha Hr]. destruct Hin as [<-|Hin]; [exact Ha | apply IH; assumption].
 Qed.
 
-Lemma emits_block_of_tokens : forall o lp inner rp,
+Lemma emits_block_of_tokens : forall o lt lp inner rp,
   (forall t, In t inner -> emits (format_token o t) (body t)) ->
-  existsb is_expression_token inner = false ->
-  emits (format_block o (mkBlock lp inner rp)) (blockc (mkBlock lp inner rp)).
+  existsb is_value_token inner = false ->
+  emits (format_block o lt (mkBlock lp inner rp))
+        ((if lt && emits_lbrace_trivia then lt_comments lp else []) ++ blockc (mkBlock lp inner rp)).
 Proof.
-  intros o lp inner rp Hft Hex. cbn [format_block block_comments].
+  intros o lt lp inner rp Hft Hex. cbn [format_block block_comments].
   rewrite go_flat_map.
   pose proof (emits_tokens_with (format_token o) (Some (l_trivia rp)) inner true Hft Hex) as Hts.
   cbn [veof_comments] in Hts. fold (lt_comments rp) in Hts.
   cbv zeta.
   ecomp; [ ecomp; [ ecomp; [ ecomp; [ ecomp; [ ecomp;
-      [ apply emits_open_block | apply emits_indent_by | reflexivity ]
+      [ ecomp; [ | apply emits_open_block | reflexivity ] | apply emits_indent_by | reflexivity ]
       | exact Hts | reflexivity ]
       | apply emits_dedent_by | reflexivity ]
       | apply emits_pop_newlines | reflexivity ]
       | apply emits_push | reflexivity ]
       | apply emits_push | ].
-  cbn [app]. rewrite !app_nil_r. reflexivity.
+  - apply (emits_if (lt && emits_lbrace_trivia) (fmt_lbrace_trivia (l_trivia lp)) _ (emits_fmt_lbrace_trivia _)).
+  - cbn [app]. rewrite !app_nil_r. reflexivity.
 Qed.
+
 Ltac emits_leaf :=
   lazymatch goal with
   | |- emits (fmt_lexpr _) _ => apply emits_lexpr
@@ -480,110 +502,142 @@ Ltac emits_leaf :=
   | _ => emits_step
   end.
 
-(* `emits (format_block o b) (blockc b)` for a block b of the token being proved; IH is the lemma being proved, used on
+Lemma vlead_nonvalue : forall t, is_value_token t = false -> vlead t = [].
+Proof. intros t H. destruct t; try reflexivity; discriminate. Qed.
+
+(* `emits (format_block o lt b) (...)` for a block b of the token being proved; IH is the lemma being proved, used on
    the elements of the block's token list by structural recursion on that list *)
 Ltac block_case IH o b Hb :=
   let lp := fresh "lp" in let inner := fresh "inner" in let rp := fresh "rp" in
   let Hex := fresh "Hex" in let Hall := fresh "Hall" in
   let a := fresh "a" in let r := fresh "r" in let IHr := fresh "IHr" in let t' := fresh "t'" in let Hin := fresh "Hin" in
+  let Ha := fresh "Ha" in let Hr := fresh "Hr" in
   destruct b as [lp inner rp]; destruct (ok_block_inv _ _ _ Hb) as [Hex Hall];
   apply emits_block_of_tokens; [ | exact Hex ];
-  clear - IH Hall; induction inner as [|a r IHr]; intros t' Hin; [destruct Hin|];
-  destruct Hin as [<-|Hin]; [apply IH; apply Hall; left; reflexivity | apply IHr; [intros; apply Hall; right; assumption | assumption]].
+  clear - IH Hall Hex; induction inner as [|a r IHr]; intros t' Hin; [destruct Hin|];
+  cbn [existsb] in Hex; apply orb_false_elim in Hex as [Ha Hr];
+  destruct Hin as [<-|Hin];
+  [ rewrite <- (app_nil_l (body a)), <- (vlead_nonvalue a Ha); apply IH; apply Hall; left; reflexivity
+  | apply IHr; [exact Hr | intros; apply Hall; right; assumption | assumption] ].
 
-Lemma inner_blockc : forall b, inner_block_comments false emits_import_arg_trivia b = blockc b.
+Lemma inner_blockc : forall b, iblockc b = (if true && emits_lbrace_trivia then lt_comments (block_lparen b) else []) ++ blockc b.
 Proof. intros [lp inner rp]. reflexivity. Qed.
 
-Ltac prep := cbn [format_token body_comments]; rewrite ?inner_blockc.
+Ltac prep := cbn [format_token body_comments value_lead app]; rewrite ?inner_blockc.
 
-Lemma emits_token : forall o t, ok_tok t -> emits (format_token o t) (body t).
+Notation P_ := (existsb is_value_token).
+
+Lemma emits_token : forall o t, ok_tok t -> emits (format_token o t) (vlead t ++ body t).
 Proof.
   fix IH 2. intros o t Hok.
   destruct t.
   - (* Align *) prep. repeat emits_leaf; emits_eqs.
   - (* Assert *) prep. repeat emits_leaf; emits_eqs.
-  - (* Braces *) prep. assert (Hb : ok_block b) by exact Hok. block_case IH o b Hb.
-  - (* Config *) prep. assert (Hb : ok_block b) by exact Hok. block_case IH o b Hb.
-  - (* ConfigPair *) prep.
-    assert (Hv : emits (format_token o (l_data value)) (body (l_data value))) by (apply IH; exact Hok).
+  - (* Braces *) prep. assert (Hb : ok_block b) by exact Hok.
+    change (blockc b) with ((if false && emits_lbrace_trivia then lt_comments (block_lparen b) else []) ++ blockc b).
+    block_case IH o b Hb.
+  - (* Config *) assert (Hb : ok_block b) by exact Hok.
+    cbn [format_token body_comments value_lead].
+    replace ((if emits_lbrace_trivia then lead_comments (Config b) else []) ++ blockc b)
+      with ((if true && emits_lbrace_trivia then lt_comments (block_lparen b) else []) ++ blockc b) by (destruct b; reflexivity).
+    block_case IH o b Hb.
+  - (* ConfigPair *)
+    assert (H2 : (match l_data value with Config _ | Expression _ => false | _ => true end) || any_tok P_ bad_shape (l_data value) = false) by exact Hok.
+    apply orb_false_elim in H2 as [_ Hv0].
+    assert (Hv : emits (format_token o (l_data value)) (vlead (l_data value) ++ body (l_data value))) by (apply IH; exact Hv0).
+    cbn [format_token body_comments value_lead app].
     repeat emits_leaf; try exact Hv; emits_eqs.
   - (* Data *) prep. repeat emits_leaf; emits_eqs.
   - (* Definition *)
-    destruct value as [v|]; prep.
-    + assert (Hv : emits (format_token o v) (body v)) by (apply IH; exact Hok).
+    destruct value as [v|].
+    + assert (H2 : (match v with Config _ => false | _ => true end) || any_tok P_ bad_shape v = false) by exact Hok.
+      apply orb_false_elim in H2 as [_ Hv0].
+      assert (Hv : emits (format_token o v) (vlead v ++ body v)) by (apply IH; exact Hv0).
+      cbn [format_token body_comments value_lead app].
       repeat emits_leaf; try exact Hv; emits_eqs.
-    + repeat emits_leaf; emits_eqs.
+    + prep. repeat emits_leaf; emits_eqs.
   - (* Eof *) prep. apply emits_id.
   - (* Error *) prep. apply emits_push.
   - (* Expression *) prep. apply emits_expression.
   - (* File *) prep. repeat emits_leaf; emits_eqs.
   - (* If *)
     destruct tag_else as [te|]; [destruct else_ as [eb|] | destruct else_ as [eb|]]; prep.
-    + assert (H2 : any_block (existsb is_expression_token) else_without_tag if_ ||
-                   any_block (existsb is_expression_token) else_without_tag eb = false) by exact Hok.
+    + assert (H2 : any_block P_ bad_shape if_ || any_block P_ bad_shape eb = false) by exact Hok.
       apply orb_false_elim in H2 as [Hb1 Hb2].
-      assert (Hif : emits (format_block o if_) (blockc if_)) by (block_case IH o if_ Hb1).
-      assert (Helse : emits (format_block o eb) (blockc eb)) by (block_case IH o eb Hb2).
+      assert (Hif : emits (format_block o true if_) ((if true && emits_lbrace_trivia then lt_comments (block_lparen if_) else []) ++ blockc if_))
+        by (block_case IH o if_ Hb1).
+      assert (Helse : emits (format_block o true eb) ((if true && emits_lbrace_trivia then lt_comments (block_lparen eb) else []) ++ blockc eb))
+        by (block_case IH o eb Hb2).
       destruct (o_braces o).
       * repeat emits_leaf; try exact Hif; try exact Helse; cbn [opt_comments]; emits_eqs.
       * ecomp; [ ecomp; [ | apply emits_loc | reflexivity ] | exact Helse | ].
-        -- instantiate (1 := lexpr_comments value ++ blockc if_).
+        -- instantiate (1 := lexpr_comments value ++ (if true && emits_lbrace_trivia then lt_comments (block_lparen if_) else []) ++ blockc if_).
            destruct (trivia_has_newline (l_trivia te)).
            ++ repeat emits_leaf; try exact Hif; emits_eqs.
            ++ repeat emits_leaf; try exact Hif; emits_eqs.
         -- cbn [opt_comments]. emits_eqs.
-    + assert (H2 : any_block (existsb is_expression_token) else_without_tag if_ || false = false) by exact Hok.
+    + assert (H2 : any_block P_ bad_shape if_ || false = false) by exact Hok.
       rewrite orb_false_r in H2.
-      assert (Hif : emits (format_block o if_) (blockc if_)) by (block_case IH o if_ H2).
+      assert (Hif : emits (format_block o true if_) ((if true && emits_lbrace_trivia then lt_comments (block_lparen if_) else []) ++ blockc if_))
+        by (block_case IH o if_ H2).
       destruct (o_braces o).
       * repeat emits_leaf; try exact Hif; cbn [opt_comments]; emits_eqs.
       * ecomp; [ | apply emits_loc | ].
-        -- instantiate (1 := lexpr_comments value ++ blockc if_).
+        -- instantiate (1 := lexpr_comments value ++ (if true && emits_lbrace_trivia then lt_comments (block_lparen if_) else []) ++ blockc if_).
            destruct (trivia_has_newline (l_trivia te)).
            ++ repeat emits_leaf; try exact Hif; emits_eqs.
            ++ repeat emits_leaf; try exact Hif; emits_eqs.
         -- cbn [opt_comments]. emits_eqs.
     + discriminate Hok.
-    + assert (H2 : any_block (existsb is_expression_token) else_without_tag if_ || false = false) by exact Hok.
+    + assert (H2 : any_block P_ bad_shape if_ || false = false) by exact Hok.
       rewrite orb_false_r in H2.
-      assert (Hif : emits (format_block o if_) (blockc if_)) by (block_case IH o if_ H2).
+      assert (Hif : emits (format_block o true if_) ((if true && emits_lbrace_trivia then lt_comments (block_lparen if_) else []) ++ blockc if_))
+        by (block_case IH o if_ H2).
       repeat emits_leaf; try exact Hif; cbn [opt_comments]; emits_eqs.
   - (* Import *)
     destruct args as [c as_ | sargs]; destruct b as [bb|]; prep; cbn [import_args_comments].
     + assert (Hb : ok_block bb) by exact Hok.
-      assert (Hbb : emits (format_block o bb) (blockc bb)) by (block_case IH o bb Hb).
+      assert (Hbb : emits (format_block o true bb) ((if true && emits_lbrace_trivia then lt_comments (block_lparen bb) else []) ++ blockc bb))
+        by (block_case IH o bb Hb).
       repeat emits_leaf; try exact Hbb; emits_eqs.
     + repeat emits_leaf; emits_eqs.
     + assert (Hb : ok_block bb) by exact Hok.
-      assert (Hbb : emits (format_block o bb) (blockc bb)) by (block_case IH o bb Hb).
+      assert (Hbb : emits (format_block o true bb) ((if true && emits_lbrace_trivia then lt_comments (block_lparen bb) else []) ++ blockc bb))
+        by (block_case IH o bb Hb).
       repeat emits_leaf; try exact Hbb; emits_eqs.
     + repeat emits_leaf; emits_eqs.
   - (* Instruction *) prep. repeat emits_leaf; emits_eqs.
   - (* Label *)
     destruct b as [bb|]; prep.
-    + assert (Hb : ok_block bb) by exact Hok.
-      assert (Hbb : emits (format_block o bb) (blockc bb)) by (block_case IH o bb Hb).
+    + assert (H2 : (match l_trivia colon with Some _ => true | None => false end) || any_block P_ bad_shape bb = false) by exact Hok.
+      apply orb_false_elim in H2 as [_ Hb].
+      assert (Hbb : emits (format_block o true bb) ((if true && emits_lbrace_trivia then lt_comments (block_lparen bb) else []) ++ blockc bb))
+        by (block_case IH o bb Hb).
       repeat emits_leaf; try exact Hbb; emits_eqs.
     + apply emits_push_label.
   - (* Loop *) prep.
     assert (Hb : ok_block b) by exact Hok.
-    assert (Hbb : emits (format_block o b) (blockc b)) by (block_case IH o b Hb).
+    assert (Hbb : emits (format_block o true b) ((if true && emits_lbrace_trivia then lt_comments (block_lparen b) else []) ++ blockc b))
+      by (block_case IH o b Hb).
     repeat emits_leaf; try exact Hbb; emits_eqs.
   - (* MacroDefinition *) prep.
     assert (Hb : ok_block b) by exact Hok.
-    assert (Hbb : emits (format_block o b) (blockc b)) by (block_case IH o b Hb).
+    assert (Hbb : emits (format_block o true b) ((if true && emits_lbrace_trivia then lt_comments (block_lparen b) else []) ++ blockc b))
+      by (block_case IH o b Hb).
     repeat emits_leaf; try exact Hbb; emits_eqs.
   - (* MacroInvocation *) prep. repeat emits_leaf; emits_eqs.
   - (* ProgramCounterDefinition *) prep. repeat emits_leaf; emits_eqs.
   - (* Segment *)
     destruct b as [bb|]; prep.
     + assert (Hb : ok_block bb) by exact Hok.
-      assert (Hbb : emits (format_block o bb) (blockc bb)) by (block_case IH o bb Hb).
+      assert (Hbb : emits (format_block o true bb) ((if true && emits_lbrace_trivia then lt_comments (block_lparen bb) else []) ++ blockc bb))
+        by (block_case IH o bb Hb).
       repeat emits_leaf; try exact Hbb; emits_eqs.
     + repeat emits_leaf; emits_eqs.
   - (* Test *) prep.
     assert (Hb : ok_block b) by exact Hok.
-    assert (Hbb : emits (format_block o b) (blockc b)) by (block_case IH o b Hb).
+    assert (Hbb : emits (format_block o true b) ((if true && emits_lbrace_trivia then lt_comments (block_lparen b) else []) ++ blockc b))
+      by (block_case IH o b Hb).
     repeat emits_leaf; try exact Hbb; emits_eqs.
   - (* Text *) prep. repeat emits_leaf; emits_eqs.
   - (* Trace *) prep. repeat emits_leaf; emits_eqs.
@@ -592,7 +646,7 @@ Qed.
 
 (* ---------------------------------------------------------------- the file level *)
 Lemma ok_tokens_inv : forall ts, wf_tokens ts = true ->
-  existsb is_expression_token ts = false /\ forall t, In t ts -> ok_tok t.
+  existsb is_value_token ts = false /\ forall t, In t ts -> ok_tok t.
 Proof.
   intros ts H. unfold wf_tokens, any_tokens in H. apply negb_true_iff in H. apply orb_false_elim in H as [H1 H2].
   split; [assumption|]. intros t Hin. unfold ok_tok. clear H1.
@@ -602,12 +656,20 @@ Proof.
 Qed.
 
 (* the comment chunks of a formatted file carry exactly the comments the token layer is expected to emit, in order *)
+Lemma existsb_false_in : forall {A} (f : A -> bool) l x, existsb f l = false -> In x l -> f x = false.
+Proof.
+  intros A f l x H Hin. destruct (f x) eqn:E; [|reflexivity].
+  assert (existsb f l = true) by (apply existsb_exists; exists x; split; assumption). congruence.
+Qed.
+
 Lemma format_chunks_comments : forall o ts, wf_tokens ts = true ->
   nows (concat (chunk_comments (format_chunks o ts))) = nows (concat (emitted_comments ts)).
 Proof.
   intros o ts Hwf. destruct (ok_tokens_inv ts Hwf) as [Hex Hall].
-  pose proof (emits_tokens_with (format_token o) None ts false
-                (fun t Hin => emits_token o t (Hall t Hin)) Hex f_init) as H.
+  assert (Hft : forall t, In t ts -> emits (format_token o t) (body t)).
+  { intros t Hin. rewrite <- (app_nil_l (body t)), <- (vlead_nonvalue t (existsb_false_in _ _ _ Hex Hin)).
+    apply emits_token. apply Hall. exact Hin. }
+  pose proof (emits_tokens_with (format_token o) None ts false Hft Hex f_init) as H.
   cbn [veof_comments] in H. rewrite app_nil_r in H.
   change (cnows f_init) with (@nil N) in H. cbn [app] in H. exact H.
 Qed.
@@ -624,19 +686,14 @@ Proof.
   apply andb_prop in H as [H1 H2]. f_equal; [apply text_eqb_eq; assumption | apply IH; assumption].
 Qed.
 
-(* C12: the token layer emits every comment of the file, in source order -- except the known class *)
-Theorem comments_in_order : forall o ts, wf_tokens ts = true -> Known_lbrace_trivia ts = false ->
+(* C12: the token layer emits every comment of the file, in source order.  This needs the two repaired defects to be
+   in the source: Gen.FmtRules.emits_lbrace_trivia and emits_import_arg_trivia (read off the Rust code on every run)
+   must both be true -- with either of them false `emitted_comments` is a proper sublist and this proof fails. *)
+Theorem comments_in_order : forall o ts, wf_tokens ts = true ->
   nows (concat (chunk_comments (format_chunks o ts))) = nows (concat (all_comments ts)).
-Proof.
-  intros o ts Hwf Hk. rewrite (format_chunks_comments o ts Hwf).
-  unfold Known_lbrace_trivia in Hk. apply negb_false_iff in Hk. apply texts_eqb_eq in Hk.
-  unfold emitted_comments. rewrite Hk.
-  (* here the repaired import-argument defect matters: Gen.FmtRules.emits_import_arg_trivia must be true *)
-  reflexivity.
-Qed.
+Proof. intros o ts Hwf. rewrite (format_chunks_comments o ts Hwf). reflexivity. Qed.
 
-(* ---------------------------------------------------------------- F-C12a on the model *)
-Definition tx (l : list N) : text := l.
+(* ---------------------------------------------------------------- the repaired F-C12a on the model *)
 (* `.if 1 // c` NEWLINE `{ nop }` as the parser builds it *)
 Definition lbrace_witness : list token :=
   [ If (mkLoc None [46; 105; 102]%N)
@@ -647,9 +704,10 @@ Definition lbrace_witness : list token :=
        None None;
     Eof (mkLoc None tt) ].
 
-Lemma lbrace_trivia_dropped : exists o ts,
+(* the comment in front of `{` is emitted, followed by a line break *)
+Lemma lbrace_trivia_kept : exists o ts,
   wf_tokens ts = true /\ Known_lbrace_trivia ts = true /\
-  all_comments ts = [[47; 47; 32; 99]%N] /\ chunk_comments (format_chunks o ts) = [].
+  all_comments ts = [[47; 47; 32; 99]%N] /\ chunk_comments (format_chunks o ts) = [[47; 47; 32; 99]%N].
 Proof. exists default_options, lbrace_witness. vm_compute. repeat split; reflexivity. Qed.
 
 (* ---------------------------------------------------------------- statements are separated by a line break *)
